@@ -11,8 +11,9 @@ mkdir -p "$HOME/.cache"
 scratch="$(mktemp -d "$HOME/.cache/verif-f.XXXXXX")" || exit 3
 trap 'rm -rf "$scratch"' EXIT
 mkdir -p "$scratch/repo/simrt"
-cp /repo/*.go /repo/go.mod /repo/go.sum "$scratch/repo/" || exit 3
-cp -r /repo/headers /repo/internal "$scratch/repo/" || exit 3
+repo="${VERIF_REPO:-/repo}"
+cp "$repo"/*.go "$repo/go.mod" "$repo/go.sum" "$scratch/repo/" || exit 3
+cp -r "$repo/headers" "$repo/internal" "$scratch/repo/" || exit 3
 cp "$sim"/simrt_src/*.go "$sim"/simrt_src/*.s "$scratch/repo/simrt/" || exit 3
 ( cd "$sim" && $GO build -o "$scratch/simrewrite" ./cmd/simrewrite ) || exit 3
 "$scratch/simrewrite" github.com/tokenized/bitcoin_reader/simrt \
